@@ -238,6 +238,20 @@ def enumeration(rnd, acc, sample=False):
         include = rnd.random() < 0.4
         excl = rnd.choice([None, ("*__init__.py", "*util*"), ("*util*", "*__init__.py")])
         kw = {"exclude_external_libraries": not include}
+        dirs = [d for d in trees.all_dirs(spec) if d]
+        if dirs and rnd.random() < 0.5:
+            # exclude a package that other modules import (the package itself and something below it)
+            d = rnd.choice(dirs)
+            pkg = trees.mod_of("proj", d)
+            below = [trees.mod_of("proj", f) for f in spec["files"] if f.startswith(d + "/") and f.endswith(".py") and all(p.isidentifier() for p in f[:-3].split("/"))]
+            importers = sorted(f for f in spec["files"] if f.endswith(".py") and not f.startswith(d + "/"))
+            for f in importers[:3]:
+                extra = f"from {pkg} import helper_name\n" + (f"from {rnd.choice(below)} import thing\n" if below else "")
+                spec["files"][f] = extra + spec["files"][f]
+                with open(os.path.join(root, f), "w") as fh:
+                    fh.write(spec["files"][f])
+            kw["exclusions"] = ("*/" + os.path.basename(d),)
+            acc.count("shuffled_scans_with_excluded_imported_package")
         get_evaluable_architecture(root, root, **kw)
         base = HUB.scan_events[-1]
         acc.evaluated()
